@@ -113,6 +113,7 @@ type FnCtx struct {
 	madeTypes map[string]types.Type
 	ghostSorts map[string]*Sort
 	inInit bool
+	sitePos map[string]string
 }
 
 func (x *FnCtx) abstracted(what string) { x.abstr[what]++ }
@@ -1097,6 +1098,17 @@ func (x *FnCtx) assignSites(fr *Frame) {
 	}
 	// source order: sort blocks by position for stability against block renumbering
 	blocks := append([]*ssa.BasicBlock{}, fr.fn.Blocks...)
+	defer func() {
+		if x.sitePos == nil {
+			x.sitePos = map[string]string{}
+		}
+		for in, n := range fr.siteOrd {
+			if p := in.Pos(); p.IsValid() {
+				pos := x.eng.prog.Fset.Position(p)
+				x.sitePos[fr.prefix+n] = fmt.Sprintf("%s:%d", shortKey(pos.Filename), pos.Line)
+			}
+		}
+	}()
 	for _, b := range blocks {
 		for _, in := range b.Instrs {
 			switch v := in.(type) {
